@@ -249,6 +249,9 @@ def _run_built(ctx: RunContext, built: dict, configs: list[dict], variables=None
             ctx.exits.append(("ret", st["index"], None if code is None else int(code)))
         except PlanAborted:
             ctx.exits.append(("plan_aborted", st["index"], None))
+            if built["level"] > 0:
+                # a nested function written as a plain sequence of steps: the refusal leaves it like any exception
+                raise
         except SimEvaluatorError as exc:
             ctx.exits.append(("evaluator_error", st["index"], str(exc)))
             if built["level"] > 0:
